@@ -124,6 +124,16 @@ theorem inSetB_sound (dt : DType F) (v : PVal F) (h : inSetB dt v = true) : InSe
   have h' : InSetM dt v := of_decide_eq_true h
   exact inSetG_mono (fun _ _ => onGrid_of_near) dt v h'
 
+/-- completeness of the value-set monitor wherever its decidable grid test finds the grid values
+(`OnGridNear`: an index within one of `round(x/scale)` gives `x`) — e.g. on the exact carrier -/
+theorem inSetB_complete (hgrid : ∀ s x : F, OnGrid s x → OnGridNear s x) (dt : DType F) (v : PVal F)
+    (h : InSet dt v) : inSetB dt v = true := by
+  have h' : InSetM dt v := inSetG_mono hgrid dt v h
+  exact decide_eq_true h'
+
+example (dt : DType Rat) (v : PVal Rat) : InSet dt v ↔ inSetB dt v = true :=
+  ⟨inSetB_complete rat_onGridNear dt v, inSetB_sound dt v⟩
+
 theorem inSetB_iff (dt : DType F) (v : PVal F) : inSetB dt v = true ↔ InSetM dt v := decide_eq_true_iff
 
 theorem denotesB_iff (dt : DType F) (prev : Option (PVal F)) (o r : PVal F) :
